@@ -49,6 +49,7 @@ const (
 	conflict
 	failBefore
 	failAfter
+	notFound // an update is answered "not found" although the object exists when the store then tries to create it (another writer, e.g. the late flush of the previous holder, created it in between)
 )
 
 type apiSim struct {
@@ -88,6 +89,9 @@ func newAPISim(objs ...k8sruntime.Object) *apiSim {
 			}
 			if f == failBefore {
 				return true, empty(), apierrors.NewServerTimeout(gr, verb, 1)
+			}
+			if f == notFound && verb == "update" {
+				return true, empty(), apierrors.NewNotFound(gr, "x")
 			}
 			handled, obj, err := base(action)
 			if err != nil && obj == nil {
@@ -526,7 +530,7 @@ func TestPropWriteThroughCrashes(t *testing.T) {
 		h := history{N: n, Shard: shard, Ops: genHistory(t, own, foreign), Faults: map[int]faultKind{}, Stop: rapid.Bool().Draw(t, "gracefulStop")}
 		nf := rapid.IntRange(0, 3).Draw(t, "nfaults")
 		for i := 0; i < nf; i++ {
-			h.Faults[rapid.IntRange(1, 20).Draw(t, "faultAt")] = faultKind(rapid.IntRange(1, 3).Draw(t, "faultKind"))
+			h.Faults[rapid.IntRange(1, 20).Draw(t, "faultAt")] = faultKind(rapid.IntRange(1, 4).Draw(t, "faultKind"))
 		}
 		hs := fmt.Sprint(h.Ops, h.Faults, h.Stop, n, shard)
 		// crash-free run first: counts the API calls
@@ -587,7 +591,7 @@ func TestPropPeriodicGracefulStop(t *testing.T) {
 		h := history{N: n, Shard: shard, Ops: genHistory(t, own, foreign), Faults: map[int]faultKind{}, Stop: true}
 		nf := rapid.IntRange(0, 2).Draw(t, "nfaults")
 		for i := 0; i < nf; i++ {
-			h.Faults[rapid.IntRange(1, 12).Draw(t, "faultAt")] = faultKind(rapid.IntRange(1, 3).Draw(t, "faultKind"))
+			h.Faults[rapid.IntRange(1, 12).Draw(t, "faultAt")] = faultKind(rapid.IntRange(1, 4).Draw(t, "faultKind"))
 		}
 		var trace []string
 		m, sim, _, bad := run(h, time.Hour, 0, own, foreign, &trace)
